@@ -123,7 +123,83 @@ def c20_replay(ctx, path):
             "violations": viol, "known": []}
 
 
+# =============================================================================================== C07
+
+def hung_stats(cases):
+    h = Counter()
+    for c in cases:
+        code = c["code"]
+        h["in_class"] += 1 if code & 4 else 0
+        h["certificate_on_impl_labels_ok"] += 1 if code & 8 else 0
+        h["model_overflow"] += 1 if code & 16 else 0
+        h["model_stuck(no perfect matching exists)"] += 1 if code & 32 else 0
+    return dict(h)
+
+
+def c07_run(ctx, search=False):
+    if ctx.tier == "quick":
+        plan = [("a", 1200, 12), ("b", 60, 28)]
+    else:
+        plan = [("a", 16000, 14), ("b", 1500, 40)]
+    cases, summaries = [], []
+    for i, (tag, count, dim) in enumerate(plan):
+        s, cs = eval_bitcases(ctx, "hung", ["--seed", ctx.seed + i, "--count", count, "--max-dim", dim, "--shards", 16], "hung")
+        summaries.append(s)
+        cases += cs
+    viol, known, disagree, _ = classify(ctx, cases, "maximum-weight constrained perfect matching (perfect, allowed, score = weight = optimum)",
+                                        "HP1.hungarian vs hungarian.rs")
+    # a case of the class on which the certificate fails although the score is optimal is reported as correspondence break
+    if (disagree or search) and not viol:
+        s, cs = eval_bitcases(ctx, "hung", ["--seed", ctx.seed + 77, "--count", 4000, "--max-dim", 10, "--shards", 16], "hung")
+        v2, _, d2, _ = classify(ctx, cs, "maximum-weight constrained perfect matching", "HP1.hungarian vs hungarian.rs")
+        viol += v2
+        cases += cs
+        disagree += d2
+        if disagree and not viol:
+            c = min(disagree, key=lambda c: len(json.dumps(c["meta"])))
+            rp = ctx.replay({"kind": "no-failing-input-found", "broken": "correspondence CorrHung.check_hung (model HP1.hungarian against "
+                             "hungarian.rs: matching, score and final labels must be equal; a panic must correspond to Overflow/Stuck)",
+                             "first_disagreeing_case": c["meta"], "code": c["code"], "disagreements": len(disagree)})
+            viol.append(("model and implementation of the matching routine disagree (%d cases)" % len(disagree), rp, True))
+    distinct = {json.dumps([c["meta"][k] for k in ("w", "dx", "my", "sx", "sy")]) for c in cases if c["code"] & BIT_CLASS}
+    cov = {
+        "evaluations": len(cases), "distinct_nontrivial": len(distinct),
+        "rule": "seeded generator of masked weight matrices (styles zero/binary/ties/small/large/caobab blocks, non-square with equal "
+                "active counts, dummy rows, mandatory columns, ~8% without any perfect allowed matching); non-trivial = distinct inputs "
+                "that satisfy the theorem's precondition (a perfect allowed matching exists)",
+        "input_distribution": {"per_batch": summaries, "outcomes": hung_stats(cases)},
+        "disagreements_model_vs_impl": len(disagree),
+        "samples": [c["meta"] for c in cases[3:5]],
+    }
+    return {"coverage": cov, "violations": viol, "known": []}
+
+
+def c07_replay(ctx, path):
+    r = json.load(open(path))
+    case = r.get("case") or r.get("first_disagreeing_case")
+    tmp = os.path.join(ctx.work, "replay_in.json")
+    json.dump([case], open(tmp, "w"))
+    s, cs = eval_bitcases(ctx, "hung", ["--replay", tmp, "--shards", 1], "hung")
+    viol, known, disagree, _ = classify(ctx, cs, "maximum-weight constrained perfect matching", "HP1.hungarian vs hungarian.rs")
+    for c in disagree[:1]:
+        rp = ctx.replay({"kind": "no-failing-input-found", "broken": "correspondence CorrHung.check_hung", "first_disagreeing_case": c["meta"]})
+        viol.append(("model and implementation disagree", rp, True))
+    return {"coverage": {"evaluations": len(cs), "distinct_nontrivial": len(cs), "samples": [c["meta"] for c in cs[:1]]},
+            "violations": viol, "known": []}
+
+
 REGISTRY = {
+    "C07": {
+        "run": c07_run, "replay": c07_replay, "allow_axioms": (),
+        "explanation": "Theorem C07 (total correctness for every input admitting a perfect allowed matching: never stuck, result is a "
+                       "perfect allowed matching of maximal weight and the score is its weight, or the range-checked Overflow outcome) and "
+                       "C07_partial are proved about the Gallina transcription HP1.hungarian (invariants, Hall-type progress, weak duality). "
+                       "The transcription is tied to hungarian.rs by exact comparison of matching, score and final dual labels on generated inputs.",
+        "trusted_base": ["modelled, not verified: src/hungarian.rs; i32 label arithmetic is range-checked in the model (Overflow outcome) "
+                         "for the slack scan and the label update, not for the initial/extension equality tests; that Overflow does not "
+                         "occur for n*W < 2^30 is the classical potential bound, not formalised"],
+        "assumptions": ["generated weights are < 2^20 so that no i32 overflow occurs in the implementation (debug build would panic)"],
+    },
     "C20": {
         "run": c20_run, "replay": c20_replay, "allow_axioms": (),
         "explanation": "Theorems C20_enum/C20_iterator/C20_order/C20_empty/C20_binom/C20_binom64 are proved for all n and k about "
